@@ -260,8 +260,8 @@ def shrink(ops, pred, budget=150):
     return cur
 
 
-def examine(name, ops, tier, seed, res):
-    a, b = run_both(ops)
+def examine(name, ops, tier, seed, res, pre=None):
+    a, b = pre if pre is not None else run_both(ops)
     al, bl = [x.rstrip() for x in a.stdout.splitlines()], [x.rstrip() for x in b.stdout.splitlines()]
     res.evaluations += 1
     msg = oracle(ops, al)
@@ -300,8 +300,12 @@ def run(tier, seed, proof):
         return res
     nops = 0
     kinds = {}
-    for name, ops, tag in gen_cases(tier, seed):
-        examine(name, ops, tier, seed, res)
+    import concurrent.futures
+    cases = list(gen_cases(tier, seed))
+    ex = concurrent.futures.ThreadPoolExecutor(max_workers=common.NCPU)
+    outs = ex.map(lambda c: run_both(c[1]), cases)
+    for (name, ops, tag), pre in zip(cases, outs):
+        examine(name, ops, tier, seed, res, pre)
         nops += len(ops)
         for o in ops:
             k = o.split()[0]; kinds[k] = kinds.get(k, 0) + 1
